@@ -386,6 +386,11 @@ def rule_call(ctx):
 
 
 def run(ctx):
+    from .. import beliefs
+    ctx.rule('C04.absent', 'only None means that rates/prepend/metadata/variants were not given: a falsy value that is a legitimate argument (prepend=0) is kept')
+    beliefs.rule_ordefault(ctx, 'C04.absent', ['sc3.synth.synthdef'])
+    i = ctx.repo.cls('sc3.synth.synthdef:SynthDef').methods['__init__']
+    ctx.ob('C04.absent', f'{i.fq}:prepend', '[] if prepend is None else prepend' in full(i.node), 'prepend defaults to [] only when it is None', i.node, i.module)
     rule_groups(ctx)
     rule_ctl(ctx)
     rule_names(ctx)
@@ -395,6 +400,8 @@ def run(ctx):
 
 
 MUTANTS = [
+    dict(rule='C04.absent', name='(fix reverted) SynthDef drops a falsy scalar prepend', file='sc3/synth/synthdef.py',
+         old="            func, rates or [], [] if prepend is None else prepend)\n\n    def _build", new="            func, rates or [], prepend or [])\n\n    def _build"),
     dict(rule='C04.groups', name='tr/ar creation reordered', file='sc3/synth/synthdef.py',
          old="        build_ita_controls(tr_cns, iou.TrigControl, 'kr')\n        build_ita_controls(ar_cns, iou.AudioControl, 'ar')",
          new="        build_ita_controls(ar_cns, iou.AudioControl, 'ar')\n        build_ita_controls(tr_cns, iou.TrigControl, 'kr')"),
